@@ -19,21 +19,26 @@ CLAIMS = {
              "the same normalized haystack in both representations (C16). The composition through the prefilter windows into the full iff is not yet a theorem: it rests on the "
              "correspondence (model = implementation on every generated case) plus the Sublist oracle evaluated on the implementation's results. Finding K1 is reported as KNOWN-FINDING."),
     "C02": dict(
-        technique="Lean 4 theorems about the index-pushing loop + witness oracle on the implementation's indices",
+        technique="Lean 4 theorems (index-pushing loop of calculate_score; cell invariants of the optimal matcher's recurrence) + witness oracle on the implementation's indices",
         text="Partial proof. Theorems: meaning of the witness predicate; every calculate_score-based path reports strictly increasing indices inside [start,end) of the haystack; "
-             "failed matches carry no indices. Character agreement along the indices, contiguity/anchoring and the matrix path's indices are checked by the oracle on the "
-             "implementation's output for every case (prior vector content random, must be untouched)."),
+             "the alignment reported by the optimal matcher's recurrence is a valid witness (one index per needle character, strictly increasing, inside the haystack and the "
+             "window, each haystack character normalizing to its needle character: C02_optimalDP_valid_witness, prefix preference off; C02_optimalDP_spells_needle for every "
+             "configuration); failed matches carry no indices. Character agreement for the calculate_score paths, contiguity/anchoring and the equality of the real back-pointer "
+             "matrix with the recurrence are checked on the implementation's output for every case (prior vector content random, must be untouched)."),
     "C03": dict(
-        technique="Lean 4 theorems (constants = documented literals, bonus table, scheme step refinement) + scheme oracle on the implementation's alignment",
+        technique="Lean 4 theorems (constants = documented literals, bonus table, calculate_score loop and the optimal recurrence = scheme on the reported alignment) + scheme oracle on the implementation's alignment",
         text="Partial proof. Theorems: the extracted constants equal the documented numbers; bonus_for equals the documented 7x7 bonus table for every pair of classes and every "
-             "configuration; each step of calculate_score's state machine refines the literal-number specification as long as the u16 accumulator is not saturated. The "
-             "whole-alignment equality for all six algorithms is evaluated by the oracle (score = scheme on the reported indices) on every case; the u16 saturation for needles "
-             "> 2520 characters is a KNOWN-FINDING."),
+             "configuration; calculate_score returns exactly the scheme's value of the alignment it reports for every window ending at the last match while the u16 accumulator is "
+             "unsaturated (C03_calculateScore_eq_alignScore); the optimal matcher's two-matrix recurrence returns the scheme's value of the alignment it reports, for every haystack, "
+             "needle and window (C03_optimalDP_eq_alignScore, by cell invariants over all columns and rows). Not theorems: that each call site passes a window ending at the last "
+             "match, and the equality of the compressed u16 matrix with the recurrence - both are the correspondence (implementation = model on every case), and the oracle "
+             "evaluates score = scheme on the reported indices for all six algorithms on every case; the u16 saturation for needles > 2520 characters is a KNOWN-FINDING."),
     "C04": dict(
         technique="Lean 4 theorems (early-exit soundness) + brute-force optimum oracle + model-equals-recurrence correspondence",
         text="Partial proof. The model of the optimal matcher is the documented recurrence evaluated naively, so 'no worse than the recurrence' is the correspondence (implementation = "
              "model on every case). Theorems: no bonus exceeds the value the early exit waits for (all presets), a candidate scan keeps the leftmost maximum and stops only at the "
-             "maximum. Upper bound and the one-character optimum are checked against a brute force over all alignments for small inputs."),
+             "maximum. Upper bound and the one-character optimum are checked against a brute force over all alignments for small inputs; the lower bound is also an oracle of its own: "
+             "implementation score >= the model's recurrence evaluated on the full matrix (every haystack column, no prefilter window) whenever the whole haystack fits the slab."),
     "C05": dict(
         technique="Lean 4 theorems (occurrence list, trimming helpers, exact_match_impl decision) + occurrence/anchoring oracle on the implementation",
         text="Partial proof. Theorems: characterisation of the specification's occurrence list; the code's position(..).unwrap_or(0) trimming equals the whitespace counts unless the "
@@ -132,7 +137,8 @@ CLAIMS.update({
              "follows the stated skeleton, the initialising write happens-before the read: entry data for get and the snapshot iterators, the bucket header's non-atomic "
              "initialisation for get / iterators (repair of F10) / writers, and get_unchecked through its caller contract and the publisher's acquire of the pointer. The worker's "
              "result list, the per-thread matchers and Drop are ordered by library edges (mutex, spawn/join, Arc). The skeleton is validated by replaying real schedules site by "
-             "site; three litmus programs run under Miri's race detector (thorough tier, and whenever a certificate breaks: Miri's report is then the replay).",
+             "site; the caller contract of get_unchecked is evaluated on real Nucleo histories (every index handed to it has reached its publishing store); three litmus programs run "
+             "under Miri's race detector (thorough tier, and whenever a certificate breaks: Miri's report is then the replay).",
         note="Trusted: Lean kernel, axioms propext/Classical.choice/Quot.sound, translator (atomic-site extraction), the release/acquire fragment of the memory model as formalised "
              "in Model/MemModel.lean, harness scheduler, Miri as the search engine. rayon, parking_lot and Arc internals are library edges."),
     "C11": dict(
@@ -149,8 +155,10 @@ CLAIMS.update({
         text="Theorems: for every comparison function (even inconsistent), every oracle for the cancel-flag reads, every input: the resulting slice is a permutation of the input "
              "(the model of all of par_sort.rs mutates only by swaps, enforced by its type), cancelled or not; a flag raised before the start returns 'cancelled' with the slice "
              "untouched; the worker's comparison decides every pair of distinct matches, hence two sorted permutations of the same matches are equal (thread-count independence). "
+             "The heapsort fallback's loop ranges are translated from the source and proved to cover every parent node and every position. "
              "Partial: 'non-decreasing order' and 'not cancelled when the flag is never raised' are not theorems; they are evaluated on the real output of every case, and the model "
-             "reproduces the real final slice exactly (including the order of ties, break_patterns, heapsort fallback and cancel points) for 1/2/8/16 threads.",
+             "reproduces the real final slice exactly (including the order of ties, break_patterns, heapsort fallback and cancel points) for 1/2/8/16 threads, on killer-adversary "
+             "inputs that reach the fallback, and for each private building block called directly.",
         note="Trusted: Lean kernel, axioms propext/Classical.choice/Quot.sound (Lean's `for`/partial loop combinators are opaque definitions, not axioms), translator (pdqsort thresholds), "
              "harness+driver. rayon::join is modelled as sequential composition on disjoint sub-slices."),
     "C20": dict(
